@@ -259,9 +259,33 @@ def flat1():
     return out
 
 
+def chan1():
+    """task-to-task channels (futures mpsc): a pipe up (children send, the parent receives), a pipe down,
+    select / join over a channel and shell requests, a sender that is evicted or aborted"""
+    sp = lambda tid, code, h: {"op": "spawn", "script": {"tid": tid, "code": code}, "h": h}
+    CH, CL = {"op": "chan", "c": 1}, {"op": "closec", "c": 1}
+    SD = lambda r=1: {"op": "send", "c": 1, "src": {"r": r}}
+    RV = lambda els, dst=2: {"op": "recv", "c": 1, "dst": dst, "else": els}
+    LC = {"k": "recv", "c": 1}
+    return [
+        # up: the child sends what the shell answered; the parent drains until the channel closes
+        A([CH, sp(3, [R(1), SD(), R(2), SD()], 1), CL, RV(7), E(3, 2), {"op": "goto", "pc": 4}, E(4)]),
+        # down: the parent sends, the child (which lets go of its own sender first) drains
+        A([CH, sp(3, [CL, RV(5), E(1, 2), {"op": "goto", "pc": 2}, E(2)], 1), R(3), SD(), R(4), SD()]),
+        # select between the channel and a request; the loser stays around
+        A([CH, sp(3, [R(1), SD()], 1), CL,
+           {"op": "select", "leaves": [LC, LR(2)], "dst": 1, "idx": 2}, E(3, 2), RV(8, 3), E(4, 3), E(5)]),
+        # join over the channel and the child's join handle
+        A([CH, sp(3, [R(1), SD()], 1), CL, {"op": "join", "leaves": [LC, {"k": "joinh", "h": 1}], "dst": [1, 0]}, E(2)]),
+        # two senders, one of them aborted by the parent after the first message
+        A([CH, sp(3, [R(1), SD(), R(2), SD()], 1), sp(4, [R(3), SD()], 2), CL,
+           RV(9), E(4, 2), {"op": "abort", "h": 1}, {"op": "goto", "pc": 5}, E(5)]),
+    ]
+
+
 if __name__ == "__main__":
     fam = sys.argv[1]
-    progs = {"cmd1": cmd1, "scripts": scripts, "scripts2": lambda: scripts2(2), "scripts3": lambda: scripts2(3), "apps1": apps1, "flat1": flat1}[fam]()
+    progs = {"cmd1": cmd1, "scripts": scripts, "scripts2": lambda: scripts2(2), "scripts3": lambda: scripts2(3), "apps1": apps1, "flat1": flat1, "chan1": chan1}[fam]()
     if len(sys.argv) > 2:
         lo, hi = map(int, sys.argv[2].split(":"))
         progs = progs[lo:hi]
